@@ -31,7 +31,7 @@ def gen_case(rng, tier):
     n = rng.choice([2, 2, 3, 3, 4, 5])
     envs = [B.gen_env(rng, n_cores=n) for _ in range(K_ENVS[tier])]
     envs[0]["stall"] = False
-    return {"ast": ast, "cores": n, "envs": envs, "pin": tier == "thorough" and rng.random() < 0.3}
+    return {"ast": ast, "cores": n, "envs": envs, "pin": rng.random() < 0.2}
 
 
 def roles_of(ast):
